@@ -114,3 +114,106 @@ package raft
 //@   ensures [C01.step-down] r.term > old(r.term) ==> r.state == Follower
 //@   ensures [C19.wf] RaftWF(r) && result1 == nil
 //@   panic_ensures [C05.crash-atomic] r.term == old(r.term) && r.votedFor == old(r.votedFor)
+
+// ---------------------------------------------------------------------------
+// configurations (C01, C06, C08, C11)
+
+//@ pure NumVoters(c Config) int = cntv(col(c.Nodes, Voter), keys(c.Nodes))
+//@ pure IsVoter(c Config, id uint64) bool = has(c.Nodes, id) && c.Nodes[id].Voter
+
+//@ func (Config).isVoter
+//@   ensures [C11.isvoter] result0 == IsVoter(c, id)
+
+//@ func (Config).numVoters
+//@   ensures [C01.numvoters] result0 == NumVoters(c)
+//@   loop 1 invariant voters == cntv(col(c.Nodes, Voter), visitedset()) && subset(visitedset(), keys(c.Nodes))
+
+//@ func (Config).quorum
+//@   ensures [C01.quorum] result0 == NumVoters(c)/2 + 1
+
+// ---------------------------------------------------------------------------
+// timers, randomness, connection pools (trusted: T-go / time)
+
+//@ func (randTime).duration
+//@   trusted
+//@ func (randTime).deadline
+//@   trusted
+//@ func (*safeTimer).reset
+//@   trusted
+//@   modifies all(t)
+//@ func (*safeTimer).stop
+//@   trusted
+//@   modifies all(t)
+
+//@ pure PoolsInv(r *Raft) bool = r.connPools != nil && forall(k, has(r.connPools, k) ==> r.connPools[k] != nil && r.connPools[k].nid == k && r.connPools[k].cid == r.cid && r.connPools[k].src == r.nid)
+
+//@ func (*Raft).getConnPool
+//@   requires r.storage != nil && PoolsInv(r)
+//@   modifies contents(r.connPools)
+//@   ensures [C20.pool-identity] result0 != nil && result0.cid == r.cid && result0.nid == nid && result0.src == r.nid
+//@   ensures [C20.pools-inv] PoolsInv(r)
+
+//@ func (rpcType).createResp
+//@   requires r.storage != nil && rpcIdentity <= t && t <= rpcTimeoutNow
+//@   ensures result0 != nil
+
+// ---------------------------------------------------------------------------
+// candidate (C01, C05, C11, C16)
+
+//@ pure CandWF(c *candidate) bool = c.Raft != nil && RaftWF(c.Raft) && PoolsInv(c.Raft) && c.timer != nil
+
+//@ func (*candidate).startElection
+//@   requires CandWF(c)
+//@   requires [C11.candidate-is-voter] IsVoter(c.configs.Latest, c.nid)
+//@   requires c.term < 18446744073709551615
+//@   modifies c.votesNeeded, c.respCh, c.storage.term, c.storage.votedFor, c.storage.termVal.v1, c.storage.termVal.v2, fs, contents(c.connPools), all(c.timer)
+//@   maypanic OpError
+//@   ensures [C01.election-start] c.term == old(c.term) + 1 && c.votedFor == c.nid && DurableIs(c.storage, c.term, c.nid)
+//@   ensures [C01.votes-needed] c.votesNeeded == NumVoters(c.configs.Latest)/2 + 1
+//@   ensures [C19.wf] CandWF(c)
+//@   panic_ensures [C05.crash-atomic] c.term == old(c.term) && c.votedFor == old(c.votedFor)
+//@   loop 1 invariant CandWF(c) && c.term == old(c.term) + 1 && c.votedFor == c.nid && DurableIs(c.storage, c.term, c.nid) && c.votesNeeded == NumVoters(c.configs.Latest)/2 + 1
+
+//@ func (*candidate).onVoteResult
+//@   requires CandWF(c) && ptrnonnil(resp.response)
+//@   requires c.votesNeeded >= 1
+//@   modifies c.votesNeeded, c.state, c.leader, c.storage.term, c.storage.votedFor, c.storage.termVal.v1, c.storage.termVal.v2, fs
+//@   maypanic OpError
+//@   ensures [C01.win-needs-quorum] c.state != old(c.state) && c.state == Leader ==> old(c.votesNeeded) == 1 && c.votesNeeded == 0 && resp.err == nil && c.leader == c.nid && c.term == old(c.term)
+//@   ensures [C01.votes-counted] c.votesNeeded == old(c.votesNeeded) || c.votesNeeded == old(c.votesNeeded) - 1
+//@   ensures [C01.step-down] c.term > old(c.term) ==> c.state == Follower && c.votedFor == 0
+//@   ensures [C05.term-monotone] c.term >= old(c.term)
+//@   ensures [C19.wf] CandWF(c)
+
+// ---------------------------------------------------------------------------
+// follower (C11)
+
+//@ func (Configs).IsBootstrapped
+//@   inline
+//@ func (Config).isBootstrapped
+//@   inline
+
+//@ func (*follower).canStartElection
+//@   requires f.Raft != nil && f.storage != nil
+//@   ensures [C11.no-campaign] result0 == (f.configs.Latest.Index > 0 && IsVoter(f.configs.Latest, f.nid))
+
+//@ func (*follower).onTimeout
+//@   requires f.Raft != nil && RaftWF(f.Raft)
+//@   modifies f.leader, f.state, f.electionAborted
+//@   ensures [C11.no-campaign] f.state != old(f.state) ==> f.state == Candidate && IsVoter(f.configs.Latest, f.nid) && f.configs.Latest.Index > 0
+//@   ensures f.leader == 0
+
+//@ func (*Raft).onTimeoutNowRequest
+//@   requires RaftWF(r) && r.cnd != nil
+//@   modifies r.state, r.leader, r.cnd.transfer
+//@   ensures [C11.timeout-now-voter-only] !IsVoter(r.configs.Latest, r.nid) ==> result0 == nonVoter && r.state == old(r.state) && r.leader == old(r.leader) && r.cnd.transfer == old(r.cnd.transfer)
+//@   ensures [C11.timeout-now] IsVoter(r.configs.Latest, r.nid) ==> result0 == success && r.state == Candidate && r.leader == 0 && r.cnd.transfer
+
+//@ func trimPrefix
+//@   trusted
+//@ func (*resp).getTerm
+//@   inline
+//@ func (*resp).getResult
+//@   inline
+//@ func (*resp).getErr
+//@   inline
